@@ -67,7 +67,10 @@ PRES_SHAPES = ['empty', 'basic', 'basic_dup', 'muc', 'mucuser', 'mucuser_dup', '
 # pres_lang / press_lang expose the GENUINE DEFECT "stanza language" (h_presence.cpp): kept, tiers=() so that they do not run.
 PRES_QUICK = ('press_basic', 'press_mucuser', 'pres_empty'); PRES_OFF = ('pres_lang', 'press_lang')
 DF_QUICK = ('dfs_props', 'df_f_empty')
-def _tier(name, quick, off=()): return () if name in off else (('quick', 'thorough') if name in quick else ('thorough',))
+# thorough keeps only the two-pass shapes that have been MEASURED to reach a verdict (acceptance-run log of 2026-09-26 and this session's runs); the remaining presence /
+# data-form two-pass shapes got no verdict within their caps when tried (QList copy loops over symbolic child positions) and are tier 'manual' (kept, not run, outside the claim)
+MEASURED_OK = ('df_empty', 'df_props', 'df_f_props', 'dfs_f_empty', 'press_caps_valid', 'pres_f_addresses', 'press_f_moved_mix', 'df_f_empty')
+def _tier(name, quick, off=()): return () if name in off else (('quick', 'thorough') if name in quick else (('thorough',) if name in MEASURED_OK else ('manual',)))
 def PRES(prefix, entry, names, **kw):
     kw.setdefault('mem_gb', 6); kw.setdefault('timeout_s', 400)
     return [I(prefix + n, entry=entry, dom=10, cdefs={'VP_UTF8_LATIN1': 1, 'VP_CASE': PRES_SHAPES.index(n), 'DOM_MAXATTR': 32, 'DOM_MAXCH': 10}, bound='shape %s; root namespace, attribute presence/values and text symbolic' % n,
